@@ -348,29 +348,56 @@ func (w *World) truncationChecks(everyByteBelow, samples int) {
 	}
 	// ---- the primary's commit log
 	if st.logFile != nil && len(st.logFile.Data) > 0 {
-		w.logTruncationChecks(st.logFile, w.tap.Commits, everyByteBelow, samples, rng)
+		w.logTruncationChecks(st.logFile, w.tap.Commits, st.logOrder, everyByteBelow, samples, rng)
 	}
+}
+
+// orderedLog stands between the recording logger and the real commit.Log: it notes the
+// order in which the log took the commits (Log.Append returns right after releasing the
+// log's own lock, with no scheduling point in between, so the order of the returns is the
+// order in the file) and what each Append answered.
+type orderedLog struct {
+	lg    *commit.Log
+	order []decodedCommit
+	acked []bool
+}
+
+func (o *orderedLog) Append(c commit.Commit) error {
+	err := o.lg.Append(c)
+	o.order = append(o.order, decodeKey(c))
+	o.acked = append(o.acked, err == nil)
+	return err
 }
 
 // logTruncationChecks enumerates crash points of a commit log: Range over every prefix
 // must deliver a prefix of the original commits, each identical, without panic or hang.
-func (w *World) logTruncationChecks(file *SimRW, appended []*TapCommit, everyByteBelow, samples int, rng *Rng) {
+func (w *World) logTruncationChecks(file *SimRW, appended []*TapCommit, lo *orderedLog, everyByteBelow, samples int, rng *Rng) {
 	limit := 10 * time.Second
 	{
 		data := file.Data
+		// a write to the log's destination failed while the history ran: the file is itself the
+		// remains of a failure while writing, it need not range to the end nor hold every commit
+		faulted := file.Fired > 0
+		if faulted {
+			w.stats.fault("log-write-error")
+		}
 		var full []decodedCommit
 		if err := commit.Open(NewSimReader(data, nil, 0)).Range(func(c commit.Commit) error {
 			full = append(full, decodeKey(c))
 			return nil
-		}); err != nil {
+		}); err != nil && !faulted {
 			w.fail(violation("truncated-log/complete-unreadable", "the complete log does not range: %v", err))
 			return
 		}
 		// the commits on disk are the commits that were appended: same number, same ids, same
 		// operations (a commit is the unit a crash may or may not leave behind)
 		if appended != nil {
-			if len(full) != len(appended) {
+			if len(full) != len(appended) && !faulted {
 				w.fail(violation("truncated-log/commit-count", "%d commits were appended to the log, Range over the complete log delivers %d", len(appended), len(full)))
+				return
+			}
+			if len(full) > len(appended) {
+				w.fail(violation("truncated-log/extra-commit", "%d commits were handed to the log, Range over it delivers %d", len(appended), len(full)))
 				return
 			}
 			// per block in the same order (commits to different blocks are appended under different
@@ -386,6 +413,27 @@ func (w *World) logTruncationChecks(file *SimRW, appended []*TapCommit, everyByt
 					return
 				}
 				perBlock[full[i].Chunk] = q[1:]
+			}
+		}
+		if lo != nil {
+			// ... and in the order the log took them: what the file holds is a prefix of that
+			// sequence, which contains at least every commit acknowledged before the first failure
+			for i := range full {
+				if i >= len(lo.order) || full[i] != lo.order[i] {
+					w.fail(violation("truncated-log/not-a-prefix", "commit #%d read back from the log (id %d block %d) is not the %d. commit the log was handed: the file does not hold a prefix of the logged commits (write errors injected: %d)", i, full[i].ID, full[i].Chunk, i+1, file.Fired))
+					return
+				}
+			}
+			durable := 0
+			for durable < len(lo.acked) && lo.acked[durable] {
+				durable++
+			}
+			if len(full) < durable {
+				w.fail(violation("truncated-log/acknowledged-commit-missing", "Log.Append returned nil for the first %d commits, Range over the log delivers %d (write errors injected: %d)", durable, len(full), file.Fired))
+				return
+			}
+			if faulted && durable < len(lo.acked) {
+				w.stats.probe("log-append-failed-during-history")
 			}
 		}
 		for _, p := range truncationPoints(len(data), file.Boundaries(), everyByteBelow, samples, rng) {
@@ -689,7 +737,7 @@ func runBigLog(cs *Case) (w *World) {
 	if len(file.Data) > 2<<20 {
 		w.stats.probe("commits-above-1MiB-in-log")
 	}
-	w.logTruncationChecks(file, w.tap.Commits, 0, 40, rng)
+	w.logTruncationChecks(file, w.tap.Commits, nil, 0, 40, rng)
 	w.stats.EndState = uint64(hashInit.add(uint64(len(file.Data))))
 	w.stats.Nontrivial = len(w.tap.Commits) >= 2
 	return w
